@@ -130,6 +130,10 @@ def run_cases(chk, tier):
                 pts[3 % n] = list(pts[2]) if pts[2] else pts[3 % n]
         if r.random() < 0.5:
             els[r.randrange(n)] = None
+        if k % 4 in (1, 2):
+            # far from the origin: the extent (8) is tiny relative to the coordinates - the grid must still be the true extent's
+            ox, oy = 2 ** 20, -(2 ** 21)
+            pts = [None if q is None else [q[0] + ox, q[1] + oy] for q in pts]
         active = ("geometry", "anchor")[(k // 2) % 2] if not distinct_mode else ("anchor", "anchor", "geometry")[(k // 2) % 3]
         npart = r.randint(1, 4)
         p = r.choice((1, 2, 5, 10, 15, 20)) if not distinct_mode else r.choice((5, 10, 15, 20))
